@@ -169,12 +169,35 @@ def body(max_steps, c):
     results = []  # (g, result) pairs from vjp calls
     n_vjp_calls = 0
     for step in range(n_steps):
-        kind = c.choice(["vjp_new", "vjp_same", "vjp_scaled", "vjp_of_result", "jvp", "basis_sweep", "rebuild"])
+        kind = c.choice(["vjp_new", "vjp_same", "vjp_scaled", "vjp_of_result", "jvp", "basis_sweep", "rebuild", "vjp_bad_cotangent"])
         history.append(kind)
         try:
             if kind == "rebuild":
                 vjp, y = autograd.make_vjp(fa)(x0)
                 jvp = autograd.make_jvp(fa)(x0)
+                continue
+            if kind == "vjp_bad_cotangent":
+                # a call that may fail part-way through the backward pass (cotangent of the wrong shape); whatever it does,
+                # later calls of the same function must behave as if it had never happened
+                bad = tree_map(lambda l: onp.ones(onp.shape(l) + (2,)) if c.bool() else onp.ones((3,) + onp.shape(l)), y0)
+                try:
+                    vjp(bad)
+                except Exception:
+                    pass
+                g = new_cot(step)
+                watch(f"cotangent#{step}", g)
+                cots.append(g)
+                r = vjp(g)
+                n_vjp_calls += 1
+                fresh = autograd.make_vjp(fa)(x0)[0](g)
+                if not tree_equal(r, fresh):
+                    return fail("history_dependence", f"step {step}: after a failed call with a wrongly shaped cotangent, vjp(g) differs from a freshly built VJP",
+                                bucket("after_failed_call"), sample=dict(sample, history=history))
+                watch(f"vjp_result#{step}", r, own=False)
+                results.append((g, r))
+                err = check_watched(step)
+                if err:
+                    return err
                 continue
             if kind == "jvp":
                 v = new_tan(step)
@@ -263,12 +286,67 @@ def body(max_steps, c):
     return ok(nontrivial=bool(interesting and n_vjp_calls >= 2), key=json.dumps([desc, history], default=repr), labels=labels, sample=sample)
 
 
+def template_body(tdef, c):
+    """Every primitive's rules under reuse: the same cotangent object passed twice, watched buffers, fresh-VJP equality."""
+    import autograd
+
+    from ..derivcheck import primal
+    from ..templates.core import instantiate, namespaces
+
+    call = tdef.draw(c)
+    inst = instantiate(c, call, allow_complex=c.chance(1, 3))
+    NP, AG = namespaces()
+    sample = inst.describe()
+    st, y0 = primal(inst)
+    if st != "ok":
+        return Outcome("numpy_rejects", detail=y0, sample=sample)
+    y0a = onp.asarray(y0)
+    x = inst.x_carried()
+    f = inst.f(AG)
+    bucket = lambda k: f"C10|template:{inst.call.name}|{inst.call.feats.get('fn', '')}|{k}"
+    mk = (lambda s_: values.cdirection(inst.vseed, y0a.shape, s_)) if y0a.dtype.kind == "c" else (lambda s_: values.direction(inst.vseed, y0a.shape, s_))
+    g1, g2 = onp.array(mk(71)), onp.array(mk(72))  # 0-d results of the value generator are numpy scalars: make them arrays
+    for g in (g1, g2):
+        g.flags.writeable = False
+    before = digest([g1, g2] + [a for a in inst.xs if isinstance(a, onp.ndarray)])
+    try:
+        vjp, y = autograd.make_vjp(f)(x)
+        r1 = vjp(g1)
+        r1_digest = digest([r1])
+        r2 = vjp(g2)
+        r1_again = vjp(g1)
+        fresh = autograd.make_vjp(f)(x)[0](g1)
+    except ValueError as e:
+        if "read-only" in str(e) or "not writeable" in str(e):
+            return fail("foreign_write", "a derivative rule tried to write into the cotangent it was given: " + describe_exc(e), bucket("foreign_write"), sample=sample)
+        return raised(e, "rev", sample=sample)
+    except Exception as e:
+        if not from_autograd(e):
+            raise
+        return raised(e, "rev", sample=sample)
+    if digest([g1, g2] + [a for a in inst.xs if isinstance(a, onp.ndarray)]) != before:
+        return fail("foreign_write", "a cotangent or input was modified by the backward pass", bucket("foreign_write"), sample=sample)
+    if digest([r1]) != r1_digest:
+        return fail("foreign_write", "a previously returned result changed during a later call", bucket("result_changed"), sample=sample)
+    if not (tree_equal(r1, r1_again) and tree_equal(r1, fresh)):
+        return fail("history_dependence", "the same VJP call repeated (or on a fresh VJP) gives a different answer", bucket("not_repeatable"), sample=sample)
+    return ok(nontrivial=True, key=json.dumps([inst.call.name, inst.call.feats, inst.argsel, inst.cmask], sort_keys=True, default=repr),
+              labels=["template_history"], sample=sample)
+
+
 from functools import partial  # noqa: E402
 
-PROP = Prop("C10", [
-    Test("histories", partial(body, 15), quick=2000, thorough=0, shard_size=130),
-    Test("histories_long", partial(body, 30), quick=0, thorough=6000, shard_size=100),
-], RULE, level="exploration", assumptions=[
+def _tests():
+    from ..templates import TEMPLATES
+
+    out = [Test("histories", partial(body, 15), quick=2000, thorough=0, shard_size=130),
+           Test("histories_long", partial(body, 30), quick=0, thorough=6000, shard_size=100)]
+    for name, t in sorted(TEMPLATES.items()):
+        out.append(Test("reuse:" + name, partial(template_body, t), quick=20 * t.weight, thorough=200 * t.weight, shard_size=100))
+    return out
+
+
+PROP = Prop("C10", _tests(), RULE, level="exploration", assumptions=[
     "SHA-256 of buffer contents identifies modification; buffers owned by the harness are read-only so writes also raise",
     "bitwise repeatability of the backward pass for an identical graph and cotangent (deterministic toposort)",
 ])
